@@ -333,7 +333,8 @@ def write_ndjson(path, rows):
 def sany_all():
     """syntax/semantic check of every specification module (used by setup)"""
     bad = []
-    mods = sorted(m for m in os.listdir(SPEC) if m.endswith(".tla"))
+    # FileSetAbsInd extends the Apalache module (Gen), which only apalache-mc provides: it is parsed by the C11 check itself
+    mods = sorted(m for m in os.listdir(SPEC) if m.endswith(".tla") and m != "FileSetAbsInd.tla")
     tmp = os.path.join(WORK, "run", "sany-%d" % os.getpid())
     shutil.rmtree(tmp, ignore_errors=True)
     shutil.copytree(SPEC, tmp)
